@@ -359,4 +359,394 @@ theorem Reachable.run {s : State} (h : Reachable s) (steps : List Step) : Reacha
 
 theorem reachable_init (m : Nat) : Reachable (init m) := ⟨m, [], rfl⟩
 
+/-! ### frame facts: what a step never changes -/
+
+theorem step_eq (s : State) (st : Step) (h : enabled s st = true) : step s st = apply s st := by
+  simp [step, h]
+
+theorem step_disabled (s : State) (st : Step) (h : enabled s st = false) : step s st = s := by
+  simp [step, h]
+
+theorem maxClients_step (s : State) (st : Step) : (step s st).maxClients = s.maxClients := by
+  unfold step; split
+  · cases st <;> simp only [apply, doStart, doStop, doArrive, doAccept, doAcceptorExit, doDecide,
+      doLaunch, doFinish, doRemove, doClose, doRequest, State.setPhase, State.setConn] <;>
+      (repeat' split) <;> rfl
+  · rfl
+
+theorem maxClients_run (s : State) (steps : List Step) : (run s steps).maxClients = s.maxClients := by
+  induction steps generalizing s with
+  | nil => rfl
+  | cons st r ih => rw [run_cons, ih, maxClients_step]
+
+/-- the log only grows -/
+theorem log_step (s : State) (st : Step) : ∃ l, (step s st).log = s.log ++ l := by
+  unfold step; split
+  · cases st <;> simp only [apply, doStart, doStop, doArrive, doAccept, doAcceptorExit, doDecide,
+      doLaunch, doFinish, doRemove, doClose, doRequest, State.setPhase, State.setConn] <;>
+      (repeat' split) <;> first | exact ⟨[_], rfl⟩ | exact ⟨[], (List.append_nil _).symm⟩
+  · exact ⟨[], by simp⟩
+
+theorem log_run (s : State) (steps : List Step) : ∃ l, (run s steps).log = s.log ++ l := by
+  induction steps generalizing s with
+  | nil => exact ⟨[], by simp [run_nil]⟩
+  | cons st r ih =>
+    obtain ⟨l₁, h₁⟩ := log_step s st
+    obtain ⟨l₂, h₂⟩ := ih (step s st)
+    exact ⟨l₁ ++ l₂, by rw [run_cons, h₂, h₁, List.append_assoc]⟩
+
+theorem log_mono {s : State} {e : Event} (steps : List Step) (h : e ∈ s.log) :
+    e ∈ (run s steps).log := by
+  obtain ⟨l, hl⟩ := log_run s steps
+  rw [hl]; exact List.mem_append_left _ h
+
+/-- an acceptor keeps the listener generation it was created with -/
+theorem acceptor_gen_step (s : State) (st : Step) (a : Nat) (g : Nat)
+    (h : (s.acceptors[a]?).map Acceptor.gen = some g) :
+    ((step s st).acceptors[a]?).map Acceptor.gen = some g := by
+  unfold step; split
+  · cases st <;> simp only [apply, doStart, doStop, doArrive, doAccept, doAcceptorExit, doDecide,
+      doLaunch, doFinish, doRemove, doClose, doRequest, State.setPhase, State.setConn] <;>
+      (repeat' split) <;> grind [release]
+  · exact h
+
+theorem acceptor_gen_run (s : State) (steps : List Step) (a : Nat) (g : Nat)
+    (h : (s.acceptors[a]?).map Acceptor.gen = some g) :
+    ((run s steps).acceptors[a]?).map Acceptor.gen = some g := by
+  induction steps generalizing s with
+  | nil => exact h
+  | cons st r ih => exact ih (step s st) (acceptor_gen_step s st a g h)
+
+/-! ### counting -/
+
+theorem length_le_of_nodup_subset {l₁ l₂ : List ConnId} (hn : l₁.Nodup) (hs : ∀ x ∈ l₁, x ∈ l₂) :
+    l₁.length ≤ l₂.length := by
+  induction l₁ generalizing l₂ with
+  | nil => simp
+  | cons a t ih =>
+    have ha : a ∈ l₂ := hs a (by simp)
+    have hnt := List.nodup_cons.mp hn
+    have h1 : ∀ x ∈ t, x ∈ l₂.erase a := by
+      intro x hx
+      have hxa : x ≠ a := fun e => hnt.1 (e ▸ hx)
+      exact (List.mem_erase_of_ne hxa).mpr (hs x (List.mem_cons_of_mem _ hx))
+    have h2 := ih hnt.2 h1
+    have h3 := List.length_erase_of_mem ha
+    have h4 := List.length_pos_of_mem ha
+    simp only [List.length_cons]
+    omega
+
+theorem find_of_mem_nodup {l : List (ConnId × Conn)} (hn : (l.map Prod.fst).Nodup) {c : ConnId}
+    {k : Conn} (h : (c, k) ∈ l) : find l c = some k := by
+  induction l with
+  | nil => simp at h
+  | cons p r ih =>
+    obtain ⟨c', k'⟩ := p
+    simp only [List.map_cons, List.nodup_cons] at hn
+    simp only [find]
+    rcases List.mem_cons.mp h with he | hr
+    · cases he; simp
+    · have : c' ≠ c := fun e => hn.1 (e ▸ List.mem_map_of_mem (f := Prod.fst) hr)
+      simp [this, ih hn.2 hr]
+
+theorem mem_of_find {l : List (ConnId × Conn)} {c : ConnId} {k : Conn} (h : find l c = some k) :
+    (c, k) ∈ l := by
+  induction l with
+  | nil => simp [find] at h
+  | cons p r ih =>
+    obtain ⟨c', k'⟩ := p
+    simp only [find] at h
+    split at h
+    · next e => cases h; simp [e]
+    · exact List.mem_cons_of_mem _ (ih h)
+
+theorem conn_of_mem {s : State} (hi : Inv s) {c : ConnId} {k : Conn} (h : (c, k) ∈ s.conns) :
+    s.conn c = k := by
+  simp [State.conn, find_of_mem_nodup hi.keys_nodup h]
+
+theorem mem_conns_of_phase {s : State} {c : ConnId} (h : (s.conn c).phase ≠ .fresh) :
+    (c, s.conn c) ∈ s.conns := by
+  cases hf : find s.conns c with
+  | none => exact absurd (by rw [conn_fresh_of_find_none hf]; rfl) h
+  | some k => simpa [State.conn, hf] using mem_of_find hf
+
+theorem mem_servingConns {s : State} (hi : Inv s) (c : ConnId) :
+    c ∈ s.servingConns ↔ (s.conn c).phase = .serving := by
+  simp only [State.servingConns, List.mem_map, List.mem_filter, beq_iff_eq]
+  constructor
+  · rintro ⟨⟨c', k⟩, ⟨hm, hp⟩, rfl⟩
+    rw [conn_of_mem hi hm]; exact hp
+  · intro h
+    exact ⟨(c, s.conn c), ⟨mem_conns_of_phase (by rw [h]; simp), h⟩, rfl⟩
+
+theorem nodup_servingConns {s : State} (hi : Inv s) : s.servingConns.Nodup := by
+  unfold State.servingConns
+  exact List.Nodup.sublist (List.Sublist.map _ List.filter_sublist) hi.keys_nodup
+
+theorem serving_le_clients {s : State} (hi : Inv s) (L : List ConnId) (hn : L.Nodup)
+    (hL : ∀ c ∈ L, (s.conn c).phase = .serving) : L.length ≤ s.clients.length :=
+  length_le_of_nodup_subset hn (fun c hc => (hi.clients_iff c).mpr (by rw [hL c hc]; rfl))
+
+theorem servingConns_le_clients {s : State} (hi : Inv s) :
+    s.servingConns.length ≤ s.clients.length :=
+  serving_le_clients hi _ (nodup_servingConns hi) (fun c hc => (mem_servingConns hi c).mp hc)
+
+/-! ### effects of single steps -/
+
+theorem step_decide (s : State) (c : ConnId) (h : (s.conn c).phase = .accepted) :
+    step s (.decide c) = doDecide s c := by
+  rw [step_eq]; rfl
+  simp [enabled, h]
+
+/-- the admission test, exactly: append iff `started ∧ len(tcpClients) < MaxClients` -/
+theorem decide_admits (s : State) (c : ConnId) (h : (s.conn c).phase = .accepted)
+    (hr : s.started = true ∧ s.clients.length < s.maxClients) :
+    ((step s (.decide c)).conn c).phase = .admitted ∧ (step s (.decide c)).clients = s.clients ++ [c] ∧
+      (step s (.decide c)).log = s.log ++ [.admit c] := by
+  rw [step_decide s c h]
+  simp [doDecide, hr.1, hr.2, conn_mk, find_put, State.setPhase, State.setConn]
+
+theorem decide_rejects (s : State) (c : ConnId) (h : (s.conn c).phase = .accepted)
+    (hr : ¬(s.started = true ∧ s.clients.length < s.maxClients)) :
+    ((step s (.decide c)).conn c).phase = .rejecting ∧ (step s (.decide c)).clients = s.clients ∧
+      (step s (.decide c)).log = s.log ++ [.reject c] := by
+  rw [step_decide s c h]
+  have : (s.started && decide (s.clients.length < s.maxClients)) = false := by
+    cases hs : s.started <;> simp_all
+  simp [doDecide, this, conn_mk, find_put, State.setPhase, State.setConn]
+
+theorem step_finish (s : State) (c : ConnId) (r : Reason) (h : enabled s (.finish c r) = true) :
+    step s (.finish c r) = s.setPhase c .finished := by
+  rw [step_eq _ _ h]; rfl
+
+theorem step_remove (s : State) (c : ConnId) (h : (s.conn c).phase = .finished) :
+    step s (.remove c) = { (s.setPhase c .removed) with clients := swapRemove s.clients c } := by
+  rw [step_eq]; rfl
+  simp [enabled, h]
+
+/-- after the request loop of a serving session has ended (any reason), its removal step is
+    enabled, and it frees exactly one slot: the session's own -/
+theorem reclaim {s : State} (hi : Inv s) (c : ConnId) (r : Reason)
+    (he : enabled s (.finish c r) = true) :
+    let s₁ := step s (.finish c r)
+    let s₂ := step s₁ (.remove c)
+    enabled s₁ (.remove c) = true ∧ s₁.clients = s.clients ∧
+      s₂.clients.length + 1 = s.clients.length ∧ c ∉ s₂.clients ∧
+      (∀ c', c' ≠ c → (c' ∈ s₂.clients ↔ c' ∈ s.clients)) ∧
+      s₂.started = s.started ∧ s₂.maxClients = s.maxClients := by
+  have hp : (s.conn c).phase = .serving := by
+    simp only [enabled, Bool.and_eq_true, beq_iff_eq] at he; exact he.1
+  have hc : c ∈ s.clients := (hi.clients_iff c).mpr (by rw [hp]; rfl)
+  have h1 : ((s.setPhase c .finished).conn c).phase = .finished := by simp
+  intro s₁ s₂
+  have e1 : s₁ = s.setPhase c .finished := step_finish s c r he
+  have e2 : s₂ = { (s₁.setPhase c .removed) with clients := swapRemove s₁.clients c } :=
+    step_remove s₁ c (by rw [e1]; exact h1)
+  have hcl : s₁.clients = s.clients := by rw [e1]; rfl
+  have hm := mem_swapRemove hi.clients_nodup c
+  refine ⟨by simp [enabled, e1], hcl, ?_, ?_, ?_, ?_, ?_⟩
+  · rw [e2]; simp only [hcl]; exact length_swapRemove hc
+  · rw [e2]; simp only [hcl]; intro h; exact ((hm c).mp h).2 rfl
+  · intro c' hne; rw [e2]; simp only [hcl]; rw [hm c']; exact ⟨And.left, fun h => ⟨h, hne⟩⟩
+  · rw [e2, e1]; rfl
+  · rw [e2, e1]; rfl
+
+theorem clients_nil_of_no_sessions {s : State} (hi : Inv s)
+    (h : ∀ c, (s.conn c).phase.inList = false) : s.clients = [] := by
+  cases hc : s.clients with
+  | nil => rfl
+  | cons c r =>
+    have : c ∈ s.clients := by rw [hc]; simp
+    have := (hi.clients_iff c).mp this
+    rw [h c] at this; cases this
+
+/-! ### a full admission: arrive, accept, decide, launch -/
+
+/-- the four steps through which acceptor `a` takes a new connection `c` -/
+def admitSeq (a : Nat) (c : ConnId) : List Step := [.arrive c, .accept a c, .decide c, .launch c]
+
+theorem run_admitSeq {s : State} (a : Nat) (c : ConnId)
+    (hst : s.started = true) (hop : s.listenerOpen = true)
+    (ha : s.acceptors[a]? = some ⟨s.gen, .accepting⟩)
+    (hf : (s.conn c).phase = .fresh) (hroom : s.clients.length < s.maxClients) :
+    let s' := run s (admitSeq a c)
+    s'.clients = s.clients ++ [c] ∧ (s'.conn c).phase = .serving ∧ (s'.conn c).sockClosed = false ∧
+      s'.log = s.log ++ [.admit c] ∧
+      s'.started = true ∧ s'.listenerOpen = true ∧ s'.gen = s.gen ∧ s'.maxClients = s.maxClients ∧
+      s'.acceptors[a]? = some ⟨s.gen, .accepting⟩ ∧ (∀ c', c' ≠ c → s'.conn c' = s.conn c') := by
+  -- arrive
+  have e1 : step s (.arrive c) = doArrive s c := by
+    rw [step_eq]; rfl
+    simp [enabled, hop, hf]
+  -- accept
+  have e2 : step (doArrive s c) (.accept a c) = doAccept (doArrive s c) a c := by
+    rw [step_eq]; rfl
+    rw [enabled_accept_iff]; simp [doArrive, ha, hop]
+  have p2 : ((doAccept (doArrive s c) a c).conn c).phase = .accepted := by simp [doAccept, conn_mk, conn_fold]
+  have e3 := step_decide _ c p2
+  have hd : ((doAccept (doArrive s c) a c).started &&
+      decide ((doAccept (doArrive s c) a c).clients.length < (doAccept (doArrive s c) a c).maxClients)) = true := by
+    simp [doAccept, doArrive, State.setPhase, State.setConn, hst, hroom]
+  have p3 : ((doDecide (doAccept (doArrive s c) a c) c).conn c).phase = .admitted := by
+    simp [doDecide, hd, conn_mk, conn_fold]
+  have e4 : step (doDecide (doAccept (doArrive s c) a c) c) (.launch c) =
+      doLaunch (doDecide (doAccept (doArrive s c) a c) c) c := by
+    rw [step_eq]; rfl
+    simp [enabled, p3]
+  intro s'
+  have es : s' = doLaunch (doDecide (doAccept (doArrive s c) a c) c) c := by
+    show run s (admitSeq a c) = _
+    simp only [admitSeq, run_cons, run_nil, e1, e2, e3, e4]
+  rw [es]
+  have hlt : a < s.acceptors.length := by
+    rcases Nat.lt_or_ge a s.acceptors.length with h | h
+    · exact h
+    · rw [List.getElem?_eq_none h] at ha; cases ha
+  simp only [doLaunch, p3, beq_self_eq_true, if_true]
+  simp only [doDecide, hd, if_true]
+  refine ⟨?_, ?_, ?_, ?_, ?_, ?_, ?_, ?_, ?_, ?_⟩
+  · simp [State.setPhase, State.setConn, doAccept, doArrive]
+  · lc_norm; simp
+  · lc_norm; simp [doAccept, doArrive]; lc_norm; simp
+  · simp [State.setPhase, State.setConn, doAccept, doArrive]
+  · simp [State.setPhase, State.setConn, doAccept, doArrive, hst]
+  · simp [State.setPhase, State.setConn, doAccept, doArrive, hop]
+  · simp [State.setPhase, State.setConn, doAccept, doArrive]
+  · simp [State.setPhase, State.setConn, doAccept, doArrive]
+  · simp only [State.setPhase, State.setConn, doAccept, doArrive]
+    grind [release]
+  · intro c' hne
+    lc_norm; simp only [hne, if_false]
+    simp only [doAccept, doArrive]; lc_norm; simp [hne]
+
+/-! ### locality: which connection a step belongs to -/
+
+/-- the connection a step is about (none for Start, Stop and the exit of an acceptor) -/
+def Step.connOf : Step → Option ConnId
+  | .arrive c | .accept _ c | .decide c | .launch c | .finish c _ | .remove c | .close c
+  | .request c => some c
+  | _ => none
+
+/-- only `Stop` touches a connection other than the one the step is about -/
+theorem conn_step_of_ne (s : State) (st : Step) (c' : ConnId) (hs : st ≠ .stop)
+    (hc : st.connOf ≠ some c') : (step s st).conn c' = s.conn c' := by
+  unfold step; split
+  · cases st <;> simp only [Step.connOf, ne_eq, Option.some.injEq, not_true_eq_false,
+        reduceCtorEq, not_false_eq_true] at hc hs <;>
+      simp only [apply, doStart, doArrive, doAccept, doAcceptorExit, doDecide,
+        doLaunch, doFinish, doRemove, doClose, doRequest] <;>
+      (repeat' split) <;> lc_norm <;> (try simp only [conn_mk, conn_fold, conn_setConn]) <;>
+      first | rfl | (simp [Ne.symm hc])
+  · rfl
+
+theorem conn_run_of_ne (s : State) (steps : List Step) (c' : ConnId)
+    (h : ∀ st ∈ steps, st ≠ .stop ∧ st.connOf ≠ some c') : (run s steps).conn c' = s.conn c' := by
+  induction steps generalizing s with
+  | nil => rfl
+  | cons st r ih =>
+    rw [run_cons, ih _ (fun x hx => h x (List.mem_cons_of_mem _ hx))]
+    exact conn_step_of_ne s st c' (h st (by simp)).1 (h st (by simp)).2
+
+/-- `cs` new connections, one after the other, while there is room: all are admitted and served -/
+theorem run_admitSeqs {s : State} (a : Nat) (cs : List ConnId)
+    (hst : s.started = true) (hop : s.listenerOpen = true)
+    (ha : s.acceptors[a]? = some ⟨s.gen, .accepting⟩)
+    (hf : ∀ c ∈ cs, (s.conn c).phase = .fresh) (hnd : cs.Nodup)
+    (hroom : s.clients.length + cs.length ≤ s.maxClients) :
+    let s' := run s (cs.flatMap (admitSeq a))
+    s'.clients = s.clients ++ cs ∧
+      (∀ c ∈ cs, (s'.conn c).phase = .serving ∧ (s'.conn c).sockClosed = false) ∧
+      s'.log = s.log ++ cs.map .admit ∧ s'.started = true := by
+  induction cs generalizing s with
+  | nil => simp [run_nil, hst]
+  | cons c r ih =>
+    have hc := hf c (by simp)
+    have hn := List.nodup_cons.mp hnd
+    simp only [List.length_cons] at hroom
+    obtain ⟨h1, h2, h3, h4, h5, h6, h7, h8, h9, h10⟩ :=
+      run_admitSeq (s := s) a c hst hop ha hc (by omega)
+    have hf' : ∀ c' ∈ r, ((run s (admitSeq a c)).conn c').phase = .fresh := by
+      intro c' hc'
+      have : c' ≠ c := fun e => hn.1 (e ▸ hc')
+      rw [h10 c' this]; exact hf c' (List.mem_cons_of_mem _ hc')
+    obtain ⟨i1, i2, i3, i4⟩ := ih (s := run s (admitSeq a c)) h5 h6 (by rw [h7]; exact h9) hf' hn.2
+      (by rw [h1, h8]; simp; omega)
+    simp only [List.flatMap_cons, run_append]
+    refine ⟨by rw [i1, h1]; simp, ?_, by rw [i3, h4]; simp, i4⟩
+    intro c' hc'
+    rcases List.mem_cons.mp hc' with e | hr
+    · subst e
+      have : (run (run s (admitSeq a c')) (r.flatMap (admitSeq a))).conn c' =
+          (run s (admitSeq a c')).conn c' := by
+        apply conn_run_of_ne
+        intro st hst'
+        obtain ⟨x, hx, hxs⟩ := List.mem_flatMap.mp hst'
+        have hne : x ≠ c' := fun e => hn.1 (e ▸ hx)
+        simp only [admitSeq, List.mem_cons, List.not_mem_nil, or_false] at hxs
+        rcases hxs with e | e | e | e <;> subst e <;> simp [Step.connOf, hne]
+      rw [this]; exact ⟨h2, h3⟩
+    · exact i2 c' hr
+
+/-! ### after Stop -/
+
+/-- while the server is stopped no request reaches a handler -/
+theorem request_not_served_when_stopped {s : State} (hi : Inv s) (hs : s.started = false)
+    (c : ConnId) : s.wouldServe c = false := by
+  unfold State.wouldServe
+  cases hp : (s.conn c).phase == .serving with
+  | false => rfl
+  | true =>
+    have hp' : (s.conn c).phase = .serving := by simpa using hp
+    have hc : c ∈ s.clients := (hi.clients_iff c).mpr (by rw [hp']; rfl)
+    simp [hi.stopped_closed hs c hc]
+
+theorem started_step_of_ne_start (s : State) (st : Step) (hne : st ≠ .start)
+    (hs : s.started = false) : (step s st).started = false := by
+  unfold step; split
+  · cases st <;> simp only [apply, doStop, doArrive, doAccept, doAcceptorExit, doDecide,
+      doLaunch, doFinish, doRemove, doClose, doRequest, State.setPhase, State.setConn] <;>
+      (repeat' split) <;> first | exact hs | rfl | exact absurd rfl hne
+  · exact hs
+
+/-- the `served` events of a log -/
+def servedOf (l : List Event) : List ConnId := l.filterMap fun | .served c => some c | _ => none
+
+theorem servedOf_step_stopped {s : State} (hi : Inv s) (hs : s.started = false) (st : Step)
+    (hne : st ≠ .start) : servedOf (step s st).log = servedOf s.log := by
+  unfold step; split
+  · cases st <;> simp only [apply, doStop, doArrive, doAccept, doAcceptorExit, doDecide,
+      doLaunch, doFinish, doRemove, doClose, doRequest, State.setPhase, State.setConn,
+      request_not_served_when_stopped hi hs] <;>
+      (repeat' split) <;> first | rfl | exact absurd rfl hne | contradiction | simp [servedOf]
+  · rfl
+
+theorem servedOf_run_stopped {s : State} (hi : Inv s) (hs : s.started = false) (steps : List Step)
+    (hne : .start ∉ steps) :
+    servedOf (run s steps).log = servedOf s.log ∧ (run s steps).started = false := by
+  induction steps generalizing s with
+  | nil => exact ⟨rfl, hs⟩
+  | cons st r ih =>
+    have h1 : st ≠ .start := fun e => hne (by simp [e])
+    have h2 : .start ∉ r := fun h => hne (List.mem_cons_of_mem _ h)
+    obtain ⟨i1, i2⟩ := ih (inv_step hi st) (started_step_of_ne_start s st h1 hs) h2
+    exact ⟨by rw [run_cons, i1, servedOf_step_stopped hi hs st h1], i2⟩
+
+/-! ### a closed listener stays closed -/
+
+theorem listening_closed_step (s : State) (st : Step) (g : Nat) (hg : g ≤ s.gen)
+    (h : s.listening g = false) : g ≤ (step s st).gen ∧ (step s st).listening g = false := by
+  unfold step; split
+  · cases st <;> simp only [apply, doStart, doStop, doArrive, doAccept, doAcceptorExit, doDecide,
+      doLaunch, doFinish, doRemove, doClose, doRequest, State.setPhase, State.setConn] <;>
+      (repeat' split) <;> simp only [State.listening] at h ⊢ <;> first | exact ⟨hg, h⟩ | grind
+  · exact ⟨hg, h⟩
+
+theorem listening_closed_run (s : State) (steps : List Step) (g : Nat) (hg : g ≤ s.gen)
+    (h : s.listening g = false) : (run s steps).listening g = false := by
+  induction steps generalizing s with
+  | nil => exact h
+  | cons st r ih =>
+    obtain ⟨h1, h2⟩ := listening_closed_step s st g hg h
+    exact ih (step s st) h1 h2
+
 end Modbus.Lifecycle
